@@ -544,7 +544,7 @@ fn c14_private(out: &mut Out, rng: &mut Rng, thorough: bool, t0: std::time::Inst
     for (k, f, m) in [(1usize, 99u64, 99u64), (1, 6, 99), (1, 5, 99), (1, 99, 0)] {
         plan.push((1, k, Some(f), m));
     }
-    for (k, f) in [(2usize, 99u64), (2, 3), (3, 7)] {
+    for (k, f) in [(2usize, 99u64), (1, 99), (2, 3), (3, 7)] {
         if sizes.contains(&3) {
             plan.push((3, k, Some(f), 99));
         }
